@@ -200,6 +200,9 @@ var (
 // field.
 func parseFields(obj any) ([]fieldInfo, error) {
 	v := reflect.ValueOf(obj)
+	if !v.IsValid() {
+		return nil, errors.New("value is not a pointer to a struct")
+	}
 	vt := v.Type()
 	if vt.Kind() != reflect.Pointer || vt.Elem().Kind() != reflect.Struct {
 		return nil, errors.New("value is not a pointer to a struct")
